@@ -22,6 +22,7 @@
 #include <QTcpServer>
 #include <QTcpSocket>
 
+#include <sys/wait.h>
 #include <linux/sockios.h>
 #include <netinet/in.h>
 #include <netinet/tcp.h>
@@ -88,9 +89,8 @@ public:
         return reply;
     }
     void prune() { for (int i = pending.size() - 1; i >= 0; i--) if (!pending[i]) { pending.removeAt(i); pendingIsPw.removeAt(i); } }
-    bool deliver(int i)
+    bool deliver(int i)   // raw index into `pending` (after prune())
     {
-        prune();
         if (i < 0 || i >= pending.size()) return false;
         auto r = pending.takeAt(i);
         pendingIsPw.removeAt(i);
@@ -120,7 +120,7 @@ public:
 // ---------------------------------------------------------------------------------------------- canonicalisation
 struct Canon {
     QByteArray lastNonce = "no-challenge-seen";   // nonce of the last DIGEST-MD5 challenge any peer of this fixture received
-    QStringList known { "v", "r", "r2" };
+    QStringList known { "v", "r", "r2", "x@example.org" };
     QMap<QString, QString> gen;
     QString res(const QString &r)
     {
@@ -263,6 +263,8 @@ static QByteArray payloadText(const QString &w, const QByteArray &nonce)
     if (w == "x") return "!!!";
     auto f = w.split(':');
     if (f[0] == "c" && f.size() == 3) return b64(QByteArray(1, '\0') + f[1].toUtf8() + QByteArray(1, '\0') + f[2].toUtf8());
+    if (f[0] == "z" && f.size() == 4) return b64(f[1].toUtf8() + QByteArray(1, '\0') + f[2].toUtf8() + QByteArray(1, '\0') + f[3].toUtf8());   // authzid\0authcid\0password
+    if (f[0] == "a" && f.size() == 4) return b64(digestResponse(f[1], f[2], f[3], true, nonce) + ",authzid=\"victim@example.org\"");
     if (f[0] == "d" && f.size() == 5) return b64(digestResponse(f[1], f[2], f[3], f[4] == "a", nonce));
     if (f[0] == "r" && f.size() == 4) return b64(digestResponse(f[1], f[2], f[3], true, STALE_NONCE));
     return "";
@@ -327,7 +329,7 @@ static void settle()
     while (idle < 3 && t.elapsed() < 500) {
         g_activity = false;
         QCoreApplication::processEvents(QEventLoop::AllEvents);
-        QCoreApplication::sendPostedEvents(nullptr, QEvent::DeferredDelete);
+        QCoreApplication::sendPostedEvents(nullptr, QEvent::DeferredDelete);   // (held back for incoming clients, see HoldDeletes)
         if (g_activity || inFlight()) idle = 0; else idle++;
     }
     if (idle < 3) {
@@ -342,22 +344,45 @@ static void settle()
     }
 }
 
+// A deleted QXmppIncomingClient that is still referenced from the server's routing tables is a use-after-free in the
+// real process.  To observe that event without executing it, the harness keeps incoming clients alive until the end
+// of the script (their DeferredDelete events are held back): a write to such a client is then a harmless sendData() on a
+// closed socket, visible through the client's own "sent" log signal.  The real crash is shown in a child process.
+struct HoldDeletes : QObject {
+    bool eventFilter(QObject *o, QEvent *e) override
+    {
+        return e->type() == QEvent::DeferredDelete && qobject_cast<QXmppIncomingClient *>(o) != nullptr;
+    }
+};
+
+struct Att {   // one attacker connection
+    std::unique_ptr<Peer> peer;
+    QXmppIncomingClient *conn = nullptr;
+    QByteArray nonce = "no-challenge-seen";   // nonce of the last DIGEST-MD5 challenge this connection received
+};
+
 struct Fixture {
     TableChecker checker;              // own checkPassword/getDigest, replies finish on `deliver`
     GetPasswordOnlyChecker stockChecker;   // library defaults, replies finish on the next event-loop turn
     const bool stock;
+    HoldDeletes hold;
     std::unique_ptr<QXmppServer> server;
     quint16 port = 0;
-    std::unique_ptr<Peer> victim, attacker;
-    QPointer<QXmppIncomingClient> attackerConn;
+    std::unique_ptr<Peer> victim;
+    Att att[3];                        // [1], [2]
+    QSet<QObject *> closedClients;     // incoming clients whose disconnected() has been emitted
+    bool deadSend = false;             // the server wrote to a client that is gone (stale routing entry)
+    int acting = 1;
     QStringList routed, signals_, authEvents;
     Canon cn;
     bool ok = false;
 
     explicit Fixture(bool stockFlavour = false) : stock(stockFlavour)
     {
-        checker.table = { { "victim", "vpw" }, { "mallory", "mpw" }, { "eve", "epw" } };
+        // the last account is what a registration-open / pass-through checker would accept
+        checker.table = { { "victim", "vpw" }, { "mallory", "mpw" }, { "eve", "epw" }, { "victim@example.org/x", "xpw" } };
         stockChecker.table = checker.table;
+        if (!getenv("C16_REAL_DELETES")) qApp->installEventFilter(&hold);
         server = std::make_unique<QXmppServer>();
         server->setDomain(DOMAIN);
         server->setPasswordChecker(stock ? static_cast<QXmppPasswordChecker *>(&stockChecker) : &checker);
@@ -371,16 +396,20 @@ struct Fixture {
     }
     ~Fixture()
     {
-        attacker.reset(); victim.reset();
+        for (auto &a : att) a.peer.reset();
+        victim.reset();
+        qApp->removeEventFilter(&hold);
         server.reset();
         settle();
         allSockets().clear();
     }
-    std::unique_ptr<Peer> connectPeer()
+    // returns the server-side object of the new connection
+    QXmppIncomingClient *connectPeer(std::unique_ptr<Peer> &p)
     {
-        auto p = std::make_unique<Peer>();
+        auto before = server->findChildren<QXmppIncomingClient *>();
+        p = std::make_unique<Peer>();
         p->sock.connectToHost(QHostAddress::LocalHost, port);
-        if (!p->sock.waitForConnected(2000)) return nullptr;
+        if (!p->sock.waitForConnected(2000)) { p.reset(); return nullptr; }
         p->sock.setSocketOption(QAbstractSocket::LowDelayOption, 1);
         allSockets() << &p->sock;
         settle();
@@ -389,66 +418,106 @@ struct Fixture {
             s->setSocketOption(QAbstractSocket::LowDelayOption, 1);
             if (!allSockets().contains(s)) allSockets() << s;
         }
-        return p;
+        QXmppIncomingClient *c = nullptr;
+        for (auto *x : server->findChildren<QXmppIncomingClient *>()) if (!before.contains(x)) c = x;
+        if (!c) return nullptr;
+        QObject::connect(c, &QXmppIncomingClient::disconnected, [this, c]() { closedClients << c; });
+        QObject::connect(c, &QXmppLoggable::logMessage, [this, c](QXmppLogger::MessageType t, const QString &) {
+            if (t == QXmppLogger::SentMessage && closedClients.contains(c)) deadSend = true;
+        });
+        return c;
     }
     bool loginVictim()
     {
-        victim = connectPeer();
-        if (!victim) return false;
+        auto *vc = connectPeer(victim);
+        if (!vc) return false;
         const QList<QStringList> ops = { { "open", DOMAIN }, { "auth1", "PLAIN", "c:victim:vpw" }, { "deliver" }, { "bind", "v" }, { "pres", "-", "-", "-" } };
         QStringList got;
         for (auto &w : ops) {
-            if (w[0] == "deliver") checker.deliver(0); else victim->send(opXml(w));
+            if (w[0] == "deliver") deliver(vc, 0); else victim->send(opXml(w));
             settle();
             got += victim->take(cn);
         }
         signals_.clear();
         return got.join(";") == "hdr;feat(m,a+);succ1;iq(result,b1,,,bind=victim@example.org/v)";
     }
-    bool connectAttacker()
+    bool connectAttacker(int k)
     {
-        auto before = server->findChildren<QXmppIncomingClient *>();
-        attacker = connectPeer();
-        if (!attacker) return false;
-        for (auto *c : server->findChildren<QXmppIncomingClient *>())
-            if (!before.contains(c)) attackerConn = c;
-        if (!attackerConn) return false;
-        QObject::connect(attackerConn.data(), &QXmppIncomingClient::elementReceived, [this](const QDomElement &e) {
-            routed << e.tagName() + "(" + cn.jid(e.attribute("from")) + "," + cn.jid(e.attribute("to")) + ")";
+        if (att[k].conn) return true;
+        auto *c = connectPeer(att[k].peer);
+        if (!c) return false;
+        att[k].conn = c;
+        QObject::connect(c, &QXmppIncomingClient::elementReceived, [this, k](const QDomElement &e) {
+            if (k == acting) routed << e.tagName() + "(" + cn.jid(e.attribute("from")) + "," + cn.jid(e.attribute("to")) + ")";
         });
         // "incoming-client.auth.success" is emitted right after d->jid has been set by a SASL success
-        QObject::connect(attackerConn.data(), &QXmppLoggable::updateCounter, [this](const QString &counter, qint64) {
-            if (counter == u"incoming-client.auth.success" && attackerConn) authEvents << "auth(" + cn.jid(attackerConn->jid()) + ")";
+        QObject::connect(c, &QXmppLoggable::updateCounter, [this, c, k](const QString &counter, qint64) {
+            if (counter == u"incoming-client.auth.success" && k == acting) authEvents << "auth(" + cn.jid(c->jid()) + ")";
         });
         return true;
     }
+    // outstanding replies of the own-flavour checker that belong to connection `c` (reply -> SASL server object -> client)
+    QList<int> pendingOf(QXmppIncomingClient *c)
+    {
+        QList<int> idx;
+        checker.prune();
+        if (closedClients.contains(c)) return idx;   // the real client is deleted together with its replies
+        for (int i = 0; i < checker.pending.size(); i++) {
+            QObject *sasl = checker.pending[i]->parent();
+            if (sasl && sasl->parent() == c) idx << i;
+        }
+        return idx;
+    }
+    bool deliver(QXmppIncomingClient *c, int i)
+    {
+        auto idx = pendingOf(c);
+        if (i < 0 || i >= idx.size()) return false;
+        return checker.deliver(idx[i]);
+    }
+    bool serverSideOpen(int k) const { return att[k].conn && !closedClients.contains(att[k].conn); }
+    QString jidOf(int k) { return serverSideOpen(k) ? cn.jid(att[k].conn->jid()) : QString(); }
 };
 
 struct Obs {
-    QStringList a, v, routed, sig, auth;
-    QString jid;
-    bool aOpen, vOpen;
+    QStringList a, b, v, routed, sig, auth;
+    QString jid1, jid2;
+    bool aOpen, bOpen, vOpen;
+    bool ub = false;
+    static QString dash(const QString &s) { return s.isEmpty() ? QString("-") : s; }
     std::string str() const
     {
-        return ("A=" + joinOrDash(a) + " V=" + joinOrDash(v) + " R=" + joinOrDash(routed) + " S=" + joinOrDash(sig) + " U=" + joinOrDash(auth) + " J=" + (jid.isEmpty() ? QString("-") : jid) +
-                " a=" + (aOpen ? "1" : "0") + " v=" + (vOpen ? "1" : "0")).toStdString();
+        if (ub) return "ub";
+        return ("A=" + joinOrDash(a) + " B=" + joinOrDash(b) + " V=" + joinOrDash(v) + " R=" + joinOrDash(routed) + " S=" + joinOrDash(sig) +
+                " U=" + joinOrDash(auth) + " J=" + dash(jid1) + " K=" + dash(jid2) +
+                " a=" + (aOpen ? "1" : "0") + " b=" + (bOpen ? "1" : "0") + " v=" + (vOpen ? "1" : "0")).toStdString();
     }
 };
 
-static Obs applyOp(Fixture &f, const QStringList &w)
+// `k` = acting attacker connection (1 or 2), `w` = the element without the connection prefix
+static Obs applyOp(Fixture &f, int k, const QStringList &w)
 {
-    if (w[0] == "deliver") f.checker.deliver(w.value(1).toInt());
-    else f.attacker->send(opXml(w, f.cn.lastNonce));
+    f.acting = k;
+    Att &me = f.att[k];
+    if (w[0] == "deliver") f.deliver(me.conn, w.value(1).toInt());
+    else me.peer->send(opXml(w, me.nonce));
     settle();
     Obs o;
-    o.a = f.attacker->take(f.cn);
+    for (int j = 1; j <= 2; j++) {
+        if (!f.att[j].peer) continue;
+        f.cn.lastNonce.clear();
+        (j == 1 ? o.a : o.b) = f.att[j].peer->take(f.cn);
+        if (!f.cn.lastNonce.isEmpty()) f.att[j].nonce = f.cn.lastNonce;
+    }
     o.v = f.victim->take(f.cn);
     o.routed = f.routed; f.routed.clear();
     o.sig = f.signals_; f.signals_.clear();
     o.auth = f.authEvents; f.authEvents.clear();
-    o.jid = f.attackerConn ? f.cn.jid(f.attackerConn->jid()) : QString();
-    o.aOpen = f.attacker->open();
+    o.jid1 = f.jidOf(1); o.jid2 = f.jidOf(2);
+    // a connection that has not been opened yet is an idle open connection for the model
+    o.aOpen = !f.att[1].peer || f.att[1].peer->open();
+    o.bOpen = !f.att[2].peer || f.att[2].peer->open();
     o.vOpen = f.victim->open();
+    o.ub = f.deadSend;
     return o;
 }
 
@@ -456,10 +525,12 @@ static Obs applyOp(Fixture &f, const QStringList &w)
 typedef std::vector<std::string> Script;
 
 static QStringList wordsOf(const std::string &op) { return QString::fromStdString(op).split(' ', Qt::SkipEmptyParts); }
+// every op is "<connection> <element...>"; the single-connection alphabets omit the "1 "
+static std::string norm(const std::string &op) { return op.size() > 1 && isdigit((unsigned char)op[0]) && op[1] == ' ' ? op : "1 " + op; }
 static std::string joinScript(const Script &s, size_t upto)
 {
     std::string r;
-    for (size_t i = 0; i <= upto && i < s.size(); i++) { if (i) r += ";"; r += s[i]; }
+    for (size_t i = 0; i <= upto && i < s.size(); i++) { if (i) r += ";"; r += norm(s[i]); }
     return r;
 }
 
@@ -470,13 +541,12 @@ static void fail(const std::string &key, const std::string &replay)
     if (failPrinted()[key]++ < 25) oracleFail(key, replay);
 }
 
-// What the attacker has proven so far, from its own inputs and the checker's table only (never from the model).
+// What one attacker connection has proven so far, from its own inputs and the checker's table only (never from the model).
 struct Oracle {
     QSet<QString> approved;   // users for which a checker-approved credential was presented on this connection
     bool sawSuccess = false;  // the server has told the attacker that authentication succeeded
     bool overlap = false;     // an element was sent while a checker reply for this connection was still outstanding
-    const QMap<QString, QString> &table;
-    explicit Oracle(const QMap<QString, QString> &t) : table(t) { }
+    QMap<QString, QString> table;
 
     void noteInput(const QStringList &w)
     {
@@ -485,79 +555,110 @@ struct Oracle {
         else if (w[0] == "resp1" || w[0] == "resp2") pl = w[1];
         auto f = pl.split(':');
         if (f[0] == "c" && f.size() == 3 && table.contains(f[1]) && table[f[1]] == f[2]) approved << f[1];
+        if (f[0] == "z" && f.size() == 4 && table.contains(f[2]) && table[f[2]] == f[3]) approved << f[2];   // authzid (f[1]) proves nothing
         if (f[0] == "d" && f.size() == 5 && f[1] == f[2] && table.contains(f[2]) && table[f[2]] == f[3]) approved << f[1];
+        if (f[0] == "a" && f.size() == 4 && f[1] == f[2] && table.contains(f[2]) && table[f[2]] == f[3]) approved << f[1];
+        // "r:" (a recorded response over a stale nonce) proves nothing
     }
     static QString bare(const QString &j) { int p = j.indexOf('/'); return p < 0 ? j : j.left(p); }
+    // the address is literally user@domain or user@domain/resource for an approved user
     bool jidApproved(const QString &jid) const
     {
-        const QString b = bare(jid);
-        for (auto &u : approved) if (b == u + "@" + DOMAIN) return true;
+        for (auto &u : approved) {
+            const QString b = u + "@" + DOMAIN;
+            if (jid == b || jid.startsWith(b + "/")) return true;
+        }
         return false;
     }
+    // ... or is what jidToBareJid makes of an approved name that contains '/'
+    bool slashName(const QString &jid) const
+    {
+        for (auto &u : approved) if (u.contains('/') && bare(jid) == bare(u + "@" + DOMAIN)) return true;
+        return false;
+    }
+    std::string unapprovedKey(const QString &jid) const
+    {
+        if (jid.startsWith("/")) return "C16:preauth-bind";
+        if (slashName(jid)) return "C16:username-with-slash";
+        return overlap ? "C16:reply-confusion" : "C16:auth-not-approved";
+    }
+    static QString fromOf(const QString &e)
+    {
+        int a = e.indexOf('('), c1 = e.indexOf(',', a);
+        if (e.startsWith("message(")) return e.mid(a + 1, c1 - a - 1);
+        QStringList f = e.mid(a + 1, e.size() - a - 2).split(',');
+        return e.startsWith("presence(") ? f.value(1) : f.value(2);
+    }
+    // a stanza of the acting connection that the server wrote to somebody's socket (not a server-generated answer)
+    static bool isDeliveredStanza(const QString &e)
+    {
+        if (e.startsWith("message(") || e.startsWith("presence(")) return true;
+        return e.startsWith("iq(") && e.section(',', 1, 1) == "q1" && (!e.contains(",err=") || e.endsWith(",err=-)"));
+    }
+    // `mine` = what the acting connection received, `jid` = its server-side jid, `others` = what everybody else received.
     // returns the key of the first violated clause, or "" when the property holds for this step
-    std::string judge(const QStringList &w, const Obs &o, bool victimWasOpen)
+    std::string judge(const QStringList &w, const Obs &o, const QStringList &mine, const QString &jid, const QStringList &others, bool victimWasOpen)
     {
         const bool before = sawSuccess;   // authenticated before this element was processed?
-        for (auto &e : o.a) if (e.startsWith("succ")) sawSuccess = true;
-        // (1) whoever the server takes the connection for must have been approved by the checker
-        const char *unapproved = overlap ? "C16:reply-confusion" : "C16:auth-not-approved";
-        if (!o.jid.isEmpty() && !jidApproved(o.jid)) return o.jid.startsWith("/") ? "C16:preauth-bind" : unapproved;
-        for (auto &e : o.auth) if (!jidApproved(e.mid(5, e.size() - 6))) return unapproved;
-        // (2) nothing bound, routed or answered before authentication
         bool succNow = false;
-        for (auto &e : o.a) if (e.startsWith("succ")) succNow = true;
+        for (auto &e : mine) if (e.startsWith("succ")) succNow = true;
+        if (succNow) sawSuccess = true;
+        // (1) whoever the server takes the connection for must have been approved by the checker
+        if (!jid.isEmpty() && !jidApproved(jid)) return unapprovedKey(jid);
+        for (auto &e : o.auth) if (!jidApproved(e.mid(5, e.size() - 6))) return unapprovedKey(e.mid(5, e.size() - 6));
+        // (2) nothing bound, routed or answered before authentication
         const bool authedNow = before || succNow;   // SASL2 may bind within the step that reports success
         for (auto &e : o.sig) if (e.startsWith("conn(") && !authedNow) return "C16:preauth-bind";
-        for (auto &e : o.a) {
+        for (auto &e : mine) {
             if (e.startsWith("iq(result,b1") && !before) return "C16:preauth-bind";
             if (e.startsWith("iq(result,s1") && !before) return "C16:preauth-session-answered";
             if ((e.startsWith("iq(") || e.startsWith("message(") || e.startsWith("presence(")) && !authedNow) return "C16:preauth-stanza-answered";
         }
-        if ((!o.routed.isEmpty() || !o.v.isEmpty()) && !before) {
-            return "C16:preauth-stanza-routed";
+        bool delivered = false;
+        for (auto &e : others) if (isDeliveredStanza(e)) delivered = true;
+        if ((!o.routed.isEmpty() || delivered) && !before) return "C16:preauth-stanza-routed";
+        // (3) whatever reaches anybody from this socket carries the sender's own, approved address
+        for (auto &e : others + mine) {
+            if (!isDeliveredStanza(e)) continue;
+            const QString from = fromOf(e);
+            if (from != jid && from != bare(jid)) return "C16:spoofed-from";
+            if (!jidApproved(from)) return slashName(jid) ? "C16:username-with-slash" : "C16:spoofed-from";
         }
-        // (3) whatever reaches the victim from this socket carries the attacker's own, approved address
-        for (auto &e : o.v) {
-            if (e.startsWith("err(") || e == "end") return "C16:victim-disconnected";
-            int a = e.indexOf('('), c1 = e.indexOf(',', a);
-            QString from;
-            if (e.startsWith("message(")) from = e.mid(a + 1, c1 - a - 1);
-            else {   // presence(type,from,to) / iq(type,id,from,to,..)
-                QStringList f = e.mid(a + 1, e.size() - a - 2).split(',');
-                from = e.startsWith("presence(") ? f.value(1) : f.value(2);
-            }
-            if (from != o.jid && from != bare(o.jid)) return "C16:spoofed-from";
-            if (!jidApproved(from)) return "C16:spoofed-from";
+        for (auto &e : o.routed) {   // tag(from,to): what the connection handed to routing
+            const QString from = e.mid(e.indexOf('(') + 1, e.indexOf(',') - e.indexOf('(') - 1);
+            if (!jidApproved(from)) return slashName(jid) ? "C16:username-with-slash" : "C16:spoofed-from";
         }
+        // (4) the victim is only ever disconnected by somebody approved as the victim (never, here)
+        for (auto &e : o.v) if (e.startsWith("err(") || e == "end") return "C16:victim-disconnected";
         if (victimWasOpen && !o.vOpen) return "C16:victim-disconnected";
         return "";
     }
 };
 
-// the C++ dereferences a disengaged sasl2AuthRequest (before repo commit e590a14 also a null saslServer) on these inputs:
-// never executed in-process
+// the C++ dereferences a disengaged / never-set sasl2AuthRequest on these inputs: never executed in-process
 struct UbGuard {
     bool live = false, stuck = false, saslNull = true, v2 = false, s2req = false, digestStep2 = false;
     bool plainStep0 = false;   // a PLAIN object has answered an empty <auth/> with an empty challenge and still waits for credentials
     bool stock = false;        // replies finish within the step (getPassword-only checker)
     QMap<QString, QString> table;
     static bool knownMech(const QString &m) { return m == "PLAIN" || m == "DIGEST-MD5" || m == "ANONYMOUS"; }
-    bool wouldBeUb(const QStringList &w, TableChecker &ck, bool open)
+    bool wouldBeUb(const QStringList &w, Fixture &f, QXmppIncomingClient *c, bool open)
     {
         if (!open) return false;
         if (w[0] == "deliver") {
-            ck.prune();
+            auto idx = f.pendingOf(c);
             int i = w.value(1).toInt();
-            if (i < 0 || i >= ck.pending.size()) return false;
+            if (i < 0 || i >= idx.size()) return false;
             if (saslNull) return true;
-            return ck.pendingIsPw[i] && ck.pending[i]->error() == QXmppPasswordReply::NoError && v2 && !s2req;
+            return f.checker.pendingIsPw[idx[i]] && f.checker.pending[idx[i]]->error() == QXmppPasswordReply::NoError && v2 && !s2req;
         }
         if (!live || stuck) return false;
         if (w[0] == "resp2" && !saslNull && digestStep2 && !s2req) return true;
         if (stock && (w[0] == "resp1" || w[0] == "resp2") && !saslNull && plainStep0 && v2 && !s2req) {
             // the password reply arrives within this step: success on a SASL2 exchange whose request has been reset by <abort/>
-            auto f = w[1].split(':');
-            return f[0] == "c" && f.size() == 3 && table.contains(f[1]) && table[f[1]] == f[2];
+            auto f2 = w[1].split(':');
+            if (f2[0] == "c" && f2.size() == 3) return table.contains(f2[1]) && table[f2[1]] == f2[2];
+            if (f2[0] == "z" && f2.size() == 4) return table.contains(f2[2]) && table[f2[2]] == f2[3];
         }
         return false;
     }
@@ -572,9 +673,9 @@ struct UbGuard {
         if (w[0] == "abort2") s2req = false;
         if (w[0] == "resp1" || w[0] == "resp2") { digestStep2 = false; plainStep0 = false; }
     }
-    void received(const Obs &o)
+    void received(const QStringList &mine)
     {
-        for (auto &e : o.a) {
+        for (auto &e : mine) {
             if (e.startsWith("succ2")) s2req = false;
             if (e == "chal1(r)" || e == "chal2(r)") digestStep2 = true;
             if (e == "chal1(-)" || e == "chal2(-)") plainStep0 = true;
@@ -582,43 +683,57 @@ struct UbGuard {
     }
 };
 
-// returns the index of the op after which the attacker's connection was gone (or script size)
-static size_t runScript(const Script &sc, bool stock = false)
+// returns the index of the op after which no attacker connection of the script's alphabet can act any more (or script size)
+static size_t runScript(const Script &sc0, bool stock = false, bool twoConn = false)
 {
+    Script sc;
+    for (auto &op : sc0) sc.push_back(norm(op));
     corr(stock ? "reset stock" : "reset", "ok");
     stat(stock ? "scripts_getPassword_only_checker" : "scripts_own_checker");
     Fixture f(stock);
-    if (!f.ok || !f.connectAttacker()) { fprintf(stderr, "fixture failed\n"); exit(3); }
-    Oracle orc(f.checker.table);
-    UbGuard g;
-    g.stock = stock; g.table = f.checker.table;
+    if (!f.ok) { fprintf(stderr, "fixture failed\n"); exit(3); }
+    Oracle orc[3];
+    UbGuard g[3];
+    for (int k = 1; k <= 2; k++) { orc[k].table = f.checker.table; g[k].stock = stock; g[k].table = f.checker.table; }
     size_t deadAt = sc.size();
-    std::set<std::string> seen;
     for (size_t i = 0; i < sc.size(); i++) {
         QStringList w = wordsOf(sc[i]);
-        const bool open = f.attacker->open();
-        if (g.wouldBeUb(w, f.checker, open) && !getenv("C16_RUN_UB_PATHS")) {   // (the env switch is for manual probing only)
+        const int k = w.takeFirst().toInt();
+        if (k < 1 || k > 2 || !f.connectAttacker(k)) { fprintf(stderr, "bad op %s\n", sc[i].c_str()); exit(3); }
+        if (k == 2) stat("ops_second_connection");
+        Att &me = f.att[k];
+        const bool open = me.peer->open();
+        if (g[k].wouldBeUb(w, f, me.conn, open) && !getenv("C16_RUN_UB_PATHS")) {   // (the env switch is for manual probing only)
             corr(sc[i], "ub");
             stat("ub_paths_not_executed");
             if (deadAt == sc.size()) deadAt = i;
             break;
         }
-        g.sent(w, open);
+        g[k].sent(w, open);
         const bool vOpen = f.victim->open();
-        if (open) orc.noteInput(w);
-        if (open && w[0] != "deliver") { f.checker.prune(); if (!f.checker.pending.isEmpty()) orc.overlap = true; }
-        Obs o = applyOp(f, w);
-        g.received(o);
+        if (open) orc[k].noteInput(w);
+        if (open && w[0] != "deliver" && !f.pendingOf(me.conn).isEmpty()) orc[k].overlap = true;
+        Obs o = applyOp(f, k, w);
+        const QStringList &mine = k == 1 ? o.a : o.b;
+        g[k].received(mine);
         corr(sc[i], o.str());
         stat("ops");
         stat("op_" + w[0].toStdString());
-        for (auto &e : o.a) { int p = e.indexOf('('); stat("recv_" + (p < 0 ? e : e.left(p)).toStdString()); }
+        if (o.ub) {
+            // observed on the real server: it wrote to a connection that is gone, through a routing entry that outlived it
+            stat("stale_entry_used");
+            fail("C16:stale-routing-entry", joinScript(sc, i));
+            if (deadAt == sc.size()) deadAt = i;
+            break;
+        }
+        for (auto &e : mine) { int p = e.indexOf('('); stat("recv_" + (p < 0 ? e : e.left(p)).toStdString()); }
         if (!o.v.isEmpty()) stat("victim_received");
         if (!o.routed.isEmpty()) stat("routed");
-        std::string key = orc.judge(w, o, vOpen);
+        std::string key = orc[k].judge(w, o, mine, k == 1 ? o.jid1 : o.jid2, (k == 1 ? o.b : o.a) + o.v, vOpen);
         if (key.empty()) oraclePass()++;
         else fail(key, joinScript(sc, i));
-        if (!o.aOpen && deadAt == sc.size()) deadAt = i;
+        const bool allGone = !o.aOpen && (!twoConn || (f.att[2].peer && !o.bOpen));
+        if (allGone && deadAt == sc.size()) deadAt = i;
     }
     stat("scripts");
     return deadAt;
@@ -626,14 +741,14 @@ static size_t runScript(const Script &sc, bool stock = false)
 
 // exhaustive: every word of length `depth` over `alpha` after `prefix`; a word whose connection died after position k
 // stands for all words sharing those k+1 symbols (the rest would be sent to a closed socket).
-static void enumerate(const Script &prefix, const std::vector<std::string> &alpha, int depth, bool stock = false)
+static void enumerate(const Script &prefix, const std::vector<std::string> &alpha, int depth, bool stock = false, bool twoConn = false)
 {
     std::vector<int> idx(depth, 0);
     const int n = (int)alpha.size();
     while (true) {
         Script sc = prefix;
         for (int d = 0; d < depth; d++) sc.push_back(alpha[idx[d]]);
-        size_t dead = runScript(sc, stock);
+        size_t dead = runScript(sc, stock, twoConn);
         int bump = depth - 1;
         if (dead < sc.size()) {
             int k = (int)dead - (int)prefix.size();   // position inside the enumerated part
@@ -665,10 +780,14 @@ static std::string randomOp(Rng &r)
         return "d:" + claimed + ":" + su + ":" + sp + ":" + (r.below(8) ? "a" : "b");
     };
     auto payload = [&]() -> std::string {
-        switch (r.below(8)) { case 0: return "-"; case 1: return "m"; case 2: return "x"; case 3: case 4: return dresp(); default: return creds(); }
+        switch (r.below(10)) {
+        case 0: return "-"; case 1: return "m"; case 2: return "x"; case 3: case 4: return dresp();
+        case 5: return r.coin() ? "c:victim@example.org/x:xpw" : "z:victim@example.org:mallory:mpw";
+        default: return creds();
+        }
     };
     auto mech = [&]() { return pick(r, { "PLAIN", "PLAIN", "DIGEST-MD5", "DIGEST-MD5", "ANONYMOUS", "X-FOO" }); };
-    auto from = [&]() { return pick(r, { "-", "-", "-", "mallory@example.org/r", "mallory@example.org", "eve@example.org/r2", "victim@example.org/v", "victim@example.org", "/r", "x", "example.org" }); };
+    auto from = [&]() { return pick(r, { "-", "-", "-", "mallory@example.org/r", "mallory@example.org", "eve@example.org/r2", "victim@example.org/v", "victim@example.org", "/r", "x", "example.org", "Mallory@example.org/r", "victim@example.org/x@example.org" }); };
     auto to = [&]() { return pick(r, { "-", "victim@example.org/v", "victim@example.org/v", "victim@example.org", "example.org", "mallory@example.org/r", "mallory@example.org", "nobody@example.org", "sub.example.org", "other.net", "/r" }); };
     switch (r.below(20)) {
     case 0: return r.below(5) ? "open example.org" : "open evil.org";
@@ -714,18 +833,31 @@ static Script randomScript(Rng &r, int maxLen)
 static void stockCheckerPipelined()
 {
     Fixture f(true);
-    if (!f.ok || !f.connectAttacker()) return;
-    applyOp(f, { "open", DOMAIN });
-    f.attacker->send(opXml({ "auth1", "PLAIN", "c:mallory:mpw" }) + opXml({ "auth1", "PLAIN", "c:victim:bad" }));
+    if (!f.ok || !f.connectAttacker(1)) return;
+    applyOp(f, 1, { "open", DOMAIN });
+    f.att[1].peer->send(opXml({ "auth1", "PLAIN", "c:mallory:mpw" }) + opXml({ "auth1", "PLAIN", "c:victim:bad" }));
     settle();
-    Obs o;
-    o.a = f.attacker->take(f.cn);
-    const std::string what = ("stock checker, '<auth mallory:mpw/><auth victim:bad/>' in one write: attacker receives " + joinOrDash(o.a) +
+    const QStringList got = f.att[1].peer->take(f.cn);
+    const std::string what = ("stock checker, '<auth mallory:mpw/><auth victim:bad/>' in one write: attacker receives " + joinOrDash(got) +
                               ", server-side identity at success = " + joinOrDash(f.authEvents)).toStdString();
     sample(what);
     bool wrong = false;
     for (auto &e : f.authEvents) if (e != "auth(mallory@example.org)") wrong = true;
     if (wrong) fail("C16:reply-confusion", "stock-checker-pipelined: open example.org;[auth1 PLAIN c:mallory:mpw + auth1 PLAIN c:victim:bad in one write]");
+    else oraclePass()++;
+}
+
+// Runs one script in a child process with real object deletion and without the UB guard: does the server survive?
+// (MALLOC_PERTURB_ fills freed and fresh heap memory with garbage, as the heap of a long-running server is.)
+static void crashProbe(const char *exe, const char *key, const std::string &script)
+{
+    const std::string cmd = std::string("MALLOC_PERTURB_=165 C16_REAL_DELETES=1 C16_RUN_UB_PATHS=1 QT_QPA_PLATFORM=offscreen '") + exe +
+        "' --replay '" + script + "' > /dev/null 2>&1";
+    const int st = system(cmd.c_str());
+    const bool crashed = (WIFSIGNALED(st)) || (WIFEXITED(st) && WEXITSTATUS(st) >= 128);
+    sample(std::string("child process, real deletes, no guard: ") + script + (crashed ? "  ->  server process killed by a signal" : "  ->  survived"));
+    stat(std::string("crash_probe_") + (crashed ? "crashed" : "survived"));
+    if (crashed) fail(key, "server crashes (child process): " + script);
     else oraclePass()++;
 }
 
@@ -736,21 +868,8 @@ int main(int argc, char **argv)
     if (!a.replay.empty()) {
         Script sc;
         for (auto &op : QString::fromStdString(a.replay).split(';')) if (!op.trimmed().isEmpty()) sc.push_back(op.trimmed().toStdString());
-        runScript(sc);
+        runScript(sc, a.mode == "stock", true);
         finish();
-        return 0;
-    }
-    if (a.mode == "staleprobe") {
-        // manual probe, not part of the check: a rebind leaves the old full jid in the routing table; after the connection is
-        // gone the entry points to a deleted QXmppIncomingClient.  Does a stanza to that jid crash the server?
-        Fixture f;
-        if (!f.ok || !f.connectAttacker()) return 3;
-        for (auto op : { "open example.org", "auth1 PLAIN c:mallory:mpw", "deliver 0", "bind r", "bind r2", "close" })
-            printf("%-28s %s\n", op, applyOp(f, wordsOf(op)).str().c_str());
-        fflush(stdout);
-        f.victim->send(opXml({ "msg", "-", "mallory@example.org/r" }));
-        settle();
-        printf("victim -> mallory@example.org/r : server survived, victim received %s\n", joinOrDash(f.victim->take(f.cn)).toUtf8().constData());
         return 0;
     }
     const bool thorough = a.tier == "thorough";
@@ -791,6 +910,26 @@ int main(int argc, char **argv)
     }
     stat("corpus_scripts", (long long)(2 * (corpus.size() + corpus2.size())));
     stockCheckerPipelined();
+    // names, authorization identities, several connections of one user, routing entries that outlive their connection
+    const std::vector<Script> corpus3 = {
+        { "open example.org", "auth1 PLAIN c:victim@example.org/x:xpw", "deliver 0", "msg victim@example.org eve@example.org", "bind v", "msg - eve@example.org" },
+        { "open example.org", "auth1 PLAIN z:victim@example.org:mallory:mpw", "deliver 0", "bind r", "msg - victim@example.org/v", "msg victim@example.org victim@example.org/v" },
+        { "open example.org", "auth1 DIGEST-MD5 -", "resp1 a:mallory:mallory:mpw", "deliver 0", "resp1 -", "bind r", "msg - victim@example.org/v" },
+        { "open example.org", "auth1 PLAIN c:mallory:mpw", "deliver 0", "bind r", "2 open example.org", "2 auth1 PLAIN c:mallory:mpw", "2 deliver 0", "2 bind r",
+          "msg - victim@example.org/v", "2 msg - victim@example.org/v", "2 msg - mallory@example.org/r" },
+        { "open example.org", "auth1 PLAIN c:mallory:mpw", "deliver 0", "bind r", "2 open example.org", "2 auth1 PLAIN c:mallory:mpw", "2 deliver 0", "2 bind r2",
+          "msg - mallory@example.org", "2 msg mallory@example.org/r victim@example.org/v", "2 msg Mallory@example.org/r2 victim@example.org/v", "2 msg - Victim@example.org/v",
+          "2 msg mallory@example.org victim@example.org/v", "iq get - mallory@example.org/r2", "2 close", "msg - mallory@example.org/r2" },
+        { "open example.org", "auth1 PLAIN c:mallory:mpw", "deliver 0", "bind r", "bind r2", "close",
+          "2 open example.org", "2 auth1 PLAIN c:eve:epw", "2 deliver 0", "2 msg - mallory@example.org/r2", "2 msg - mallory@example.org/r" },
+        { "open example.org", "auth1 PLAIN c:mallory:mpw", "deliver 0", "bind r", "bind r2", "close",
+          "2 open example.org", "2 auth1 PLAIN c:mallory:mpw", "2 deliver 0", "2 bind r" },
+    };
+    for (int stock = 0; stock < 2; stock++) for (auto &sc : corpus3) runScript(sc, stock, true);
+    crashProbe(argv[0], "C16:stale-routing-entry",
+               "1 open example.org;1 auth1 PLAIN c:mallory:mpw;1 deliver 0;1 bind r;1 bind r2;1 close;2 open example.org;2 auth1 PLAIN c:eve:epw;2 deliver 0;2 msg - mallory@example.org/r");
+    crashProbe(argv[0], "C16:sasl2-request-unset",
+               "1 open example.org;1 auth1 DIGEST-MD5 -;1 resp2 d:mallory:mallory:mpw:a;1 deliver 0;1 resp2 -");
 
     const std::vector<std::string> full = {
         "open example.org", "open evil.org",
@@ -836,6 +975,27 @@ int main(int argc, char **argv)
         stat("alphabet_digest", (long long)digestAlpha.size());
     }
     stat("exhaustive_depth_digest_alphabet", thorough ? 4 : 3);
+    // names with '/' and '@', authorization identities, from/to in another case
+    const std::vector<std::string> nameAlpha = {
+        "auth1 PLAIN c:victim@example.org/x:xpw", "auth1 PLAIN z:victim@example.org:mallory:mpw", "auth2 PLAIN z:victim@example.org/v:mallory:mpw b:",
+        "deliver 0", "bind r", "bind v", "msg victim@example.org victim@example.org/v", "msg - victim@example.org/v",
+        "msg Mallory@example.org/r victim@example.org/v", "msg - Victim@example.org/v", "pres subscribe - victim@example.org",
+        "msg victim@example.org/x@example.org eve@example.org",
+    };
+    for (int stock = 0; stock < 2; stock++) enumerate({ "open example.org" }, nameAlpha, thorough ? 4 : 3, stock);
+    stat("alphabet_names", (long long)nameAlpha.size());
+    // two connections, logged in as the same user: binds (same / different resource, conflict), rebinds, stanzas to each
+    // other's full and bare jid, one of them leaving or becoming somebody else
+    const std::vector<std::string> twoAlpha = {
+        "1 bind r", "2 bind r", "1 bind r2", "2 bind r2", "1 msg - mallory@example.org/r", "2 msg - mallory@example.org/r", "1 msg - mallory@example.org",
+        "2 msg mallory@example.org/r victim@example.org/v", "1 close", "2 close", "2 auth1 PLAIN c:eve:epw", "2 deliver 0", "1 iq get - mallory@example.org/r2",
+        "2 msg - victim@example.org/v",
+    };
+    const Script twoLogin = { "1 open example.org", "1 auth1 PLAIN c:mallory:mpw", "1 deliver 0", "2 open example.org", "2 auth1 PLAIN c:mallory:mpw", "2 deliver 0" };
+    enumerate(twoLogin, twoAlpha, thorough ? 4 : 3, false, true);
+    enumerate(twoLogin, twoAlpha, thorough ? 3 : 2, true, true);
+    stat("alphabet_two_connections", (long long)twoAlpha.size());
+    stat("exhaustive_depth_two_connections", thorough ? 4 : 3);
     stat("exhaustive_depth_full_alphabet", depthFull); stat("alphabet_full", (long long)full.size());
     stat("exhaustive_depth_compact_alphabet", depthCompact); stat("alphabet_compact", (long long)compact.size());
 
@@ -844,7 +1004,8 @@ int main(int argc, char **argv)
     for (int i = 0; i < nrand; i++) {
         Script sc = randomScript(rng, 20);
         if (i < 4) sample(joinScript(sc, sc.size()));
-        runScript(sc, i % 2);
+        if (i % 4 >= 2) for (auto &op : sc) if (rng.below(5) < 2) op = "2 " + op;   // half of the scripts interleave two connections
+        runScript(sc, i % 2, true);
     }
     stat("random_scripts", nrand);
     stat("elapsed_ms", timer.elapsed());
